@@ -128,6 +128,9 @@ func genStepCase(idx int64, r *Rng, thorough, limited bool) *StepCase {
 	f := formInsn(int(idx % int64(numForms)))
 	f.A, f.B = fieldVal(r, m, sc.R, sc.W), fieldVal(r, m, sc.R, sc.W)
 	sc.Core[sc.PC] = f
+	if r.Chance(1, 3) {
+		aimIndirect(sc, r)
+	}
 	return sc
 }
 
@@ -262,11 +265,17 @@ func genGridCase(gidx int64, r *Rng) *StepCase {
 // genLargeCase: arithmetic and pointer chains on cores above 2^16 (products above 2^32, fields above 2^16)
 func genLargeCase(r *Rng) *StepCase {
 	sc := &StepCase{}
-	sc.M = []int{65537, 70001, 100000, 1 << 17, 250000, 1 << 20}[r.Intn(6)]
+	sc.M = []int{32768, 50000, 60000, 65535, 65536, 65536, 65537, 70001, 100000, 1 << 17}[r.Intn(10)]
+	if r.Chance(1, 25) {
+		sc.M = []int{250000, 1 << 20}[r.Intn(2)]
+	}
 	m := sc.M
 	sc.R, sc.W = m, m
-	if r.Chance(1, 3) {
-		sc.R, sc.W = r.Range(m/2, m), r.Range(m/2, m)
+	if r.Chance(1, 2) {
+		sc.R, sc.W = r.Range(1, m), r.Range(1, m)
+		if r.Chance(1, 2) {
+			sc.W = sc.R
+		}
 	}
 	sc.P = 3
 	sc.PC = r.Intn(m)
@@ -280,7 +289,10 @@ func genLargeCase(r *Rng) *StepCase {
 		case 0:
 			return m - 1 - r.Intn(3)
 		case 1:
-			return 65536 + r.Intn(m-65536)
+			if m > 65537 {
+				return 65536 + r.Intn(m-65536)
+			}
+			return m/2 + r.Intn(m/2)
 		default:
 			return r.Intn(m)
 		}
@@ -298,6 +310,23 @@ func genLargeCase(r *Rng) *StepCase {
 	f := mars.Insn{Op: ops[r.Intn(len(ops))], Mod: mars.Mod(r.Intn(int(mars.NumMods))), AM: mars.Mode(r.Intn(int(mars.NumModes))), BM: mars.Mode(r.Intn(int(mars.NumModes)))}
 	f.A, f.B = r.Intn(6), r.Intn(6)
 	if r.Chance(1, 2) {
+		// first-level pointers anywhere, boundary-biased (the pointed-to cell is filled below)
+		f.A, f.B = fieldVal(r, m, sc.R, sc.W), fieldVal(r, m, sc.R, sc.W)
+		for _, x := range []int{f.A, f.B} {
+			a := (sc.PC + mars.Fold(x, sc.R, m)) % m
+			if a != sc.PC {
+				ins := randInsn(r, m, sc.R, sc.W)
+				ins.A, ins.B = big(), big()
+				sc.Core[a] = ins
+			}
+			a = (sc.PC + mars.Fold(x, sc.W, m)) % m
+			if a != sc.PC {
+				ins := randInsn(r, m, sc.R, sc.W)
+				ins.A, ins.B = big(), big()
+				sc.Core[a] = ins
+			}
+		}
+	} else if r.Chance(1, 2) {
 		f.AM = mars.IMM
 		f.A = big()
 	}
@@ -306,5 +335,59 @@ func genLargeCase(r *Rng) *StepCase {
 		f.B = big()
 	}
 	sc.Core[sc.PC] = f
+	if r.Chance(1, 2) {
+		aimIndirect(sc, r)
+	}
 	return sc
+}
+
+// aimIndirect rewrites the pointer cell of an indirect operand of the instruction at PC so that the
+// second-level pointer sum lands on a discontinuity of Fold: k*L-1, k*L, k*L+1, k*L+L/2-1, k*L+L/2,
+// k*L+L/2+1 (L = read or write limit, k = 1..3).  A generic boundary-aimed construction: it follows
+// the draft's Fold, not any implementation.
+func aimIndirect(sc *StepCase, r *Rng) bool {
+	m := sc.M
+	ins := sc.Core[sc.PC]
+	type opnd struct {
+		mode mars.Mode
+		num  int
+	}
+	cands := []opnd{{ins.AM, ins.A}, {ins.BM, ins.B}}
+	o := cands[r.Intn(2)]
+	if o.mode == mars.IMM || o.mode == mars.DIR {
+		o = cands[0]
+		if o.mode == mars.IMM || o.mode == mars.DIR {
+			o = cands[1]
+		}
+	}
+	if o.mode == mars.IMM || o.mode == mars.DIR {
+		return false
+	}
+	l := sc.R
+	if r.Bool() {
+		l = sc.W
+	}
+	first := mars.Fold(o.num, l, m) // folded first-level pointer (as the draft computes it)
+	cell := (sc.PC + first) % m
+	if cell == sc.PC {
+		return false
+	}
+	k := r.Range(1, 3)
+	d := []int{-1, 0, 1, l/2 - 1, l / 2, l/2 + 1}[r.Intn(6)]
+	target := k*l + d
+	v := target - first
+	if v < 0 || v >= m {
+		return false
+	}
+	useA := o.mode == mars.AIND || o.mode == mars.ADEC || o.mode == mars.AINC
+	// pre-decrement modes decrement the field before it is used: compensate
+	if o.mode == mars.ADEC || o.mode == mars.BDEC {
+		v = (v + 1) % m
+	}
+	if useA {
+		sc.Core[cell].A = v
+	} else {
+		sc.Core[cell].B = v
+	}
+	return true
 }
